@@ -552,7 +552,7 @@ class RandMaxVar(MaxVar):
             Coordinates of the yielded acquisition points.
 
         """
-        if n > self._n_samples:
+        if n > 1 and n > self._n_samples - self._warmup:
             raise ValueError(("The number of acquisitions ({0}) has to be lower than the number "
                               "of the samples ({1}).").format(n, self._n_samples - self._warmup))
 
